@@ -174,8 +174,18 @@ template<class T> static void table_copy(int how) {
     index_t i0 = src->add(v[0].v), i1 = src->add(v[1].v);
     size_t n = src->size();
     BlockTable<T>* dst;
+    Box<T> old[2]; sym(old[0].v); sym(old[1].v);
     if (how == 0) { dst = new BlockTable<T>(*src); }                   // copy construction
-    else { dst = new BlockTable<T>(); *dst = *src; }                    // copy assignment
+    else {                                                              // copy assignment onto a table that is already in use
+        dst = new BlockTable<T>();
+        unsigned nold = (unsigned)vs_range(2);
+        for (unsigned i = 0; i < 2; i++) if (i < nold) dst->add(old[i].v);
+        *dst = *src;
+        // nothing of the target's previous contents survives the assignment
+        for (unsigned i = 0; i < 2; i++) if (i < nold && !(old[i].v == v[0].v) && !(old[i].v == v[1].v)) {
+            index_t f0 = 0; __verif_assert(!dst->find(old[i].v, f0), "values the target held before the assignment are gone (the copy is exactly the source) (C19)");
+        }
+    }
     // the source is modified, cleared and destroyed
     if (nondet_bool()) src->clear();
     delete src;
